@@ -291,7 +291,7 @@ Definition mismatches_C11 (cs : list case_C11) : list N := indices_where mismatc
 Definition violations_C11 (cs : list case_C11) : list N := indices_where violation_C11 cs.
 
 (* known-finding classifier over the INPUT (scenario + probe); idx*100 + tag *)
-(* tags 3, 5, 6 (tags 1, 2 and 4 are retired: repaired in /repo; 4 = 8529336, the handle keeping a state point
+(* tag 3 (tags 1, 2, 4, 5, 6 are retired: repaired in /repo; 4 = 8529336, the handle keeping a state point
    rejected by an I/O error at the parking of the state point file): Project.clone under a DOUBLE fault — a failure
    while copying AND a failure of a clean-up unlink / rmdir below the destination (shutil.rmtree with
    ignore_errors) — leaves a partial destination that may validate *)
@@ -300,18 +300,7 @@ Definition known_tag_C11 (c : case_C11) : N :=
   | KClone ws i dws, PFault2 s1 _ _ s2 _ _ (Some _) _ =>
       let d := dst_dir (frepr_of c) (k_op c) (k_pre c) in
       let cleanup (s : csig) := (ckind_eqb (sg_kind s) SgUnlink || ckind_eqb (sg_kind s) SgRmdir) && under d (sg_p s) in
-      if negb (cleanup s1) && (under d (sg_p s1) || under (ws ++ [i]) (sg_p s1)) && cleanup s2 then 3
-      (* tag 6: the lexists() of an EXISTING destination fails (os.path.lexists reads any OSError as "not
-         there") AND a later call of the copy fails: the clean-up removes the pre-existing destination *)
-      else if ckind_eqb (sg_kind s1) SgStat && path_eqb (sg_p s1) d && exists_ (k_pre c) d then 6
-      else 0
-  (* tag 5: Job.clear classifies the entries with os.path.isfile / isdir, which read a failing stat as False:
-     the entry is skipped and clear() returns normally *)
-  | KClear ws i, PFault s _ _ None _ =>
-      if ckind_eqb (sg_kind s) SgStat && path_eqb (parent (sg_p s)) (ws ++ [i]) then 5 else 0
-  | KClear ws i, PFault2 s1 _ _ s2 _ _ None _ =>
-      if (ckind_eqb (sg_kind s1) SgStat && path_eqb (parent (sg_p s1)) (ws ++ [i]))
-         || (ckind_eqb (sg_kind s2) SgStat && path_eqb (parent (sg_p s2)) (ws ++ [i])) then 5 else 0
+      if negb (cleanup s1) && (under d (sg_p s1) || under (ws ++ [i]) (sg_p s1)) && cleanup s2 then 3 else 0
   | _, _ => 0
   end%N.
 
